@@ -127,6 +127,24 @@ template <typename G> cocls::async<void> consume_coro(G &gen, const int *style, 
     }
 }
 
+// ---- event-driven consumer: a callback awaiter on the future returned by gen(); its handler runs inline in whoever lets the generator
+// reach its next yield (this thread, or the helper thread completing an awaited operation) and calls the generator again from there
+template <typename G> struct CbGenConsumer : cocls::awaiter {
+    G &gen; size_t limit; Observed &o; cocls::future<long> f; cocls::promise<void> done;
+    CbGenConsumer(G &g, size_t limit, Observed &o) : gen(g), limit(limit), o(o) { set_resume_fn([](cocls::awaiter *me, void *) noexcept -> cocls::suspend_point<void> { auto *c = static_cast<CbGenConsumer *>(me); c->record(); return c->pump(); }); }
+    void record() { try { if (!f.has_value()) o.ended = true; else o.vals.push_back(f.value()); } catch (const vs::TestError &e) { o.threw = true; o.code = e.code; } }
+    cocls::suspend_point<void> pump() {
+        while (o.vals.size() < limit && !o.ended && !o.threw) {
+            f << [&] { return gen(); };
+            complete_self_pending();
+            cocls::co_awaiter<cocls::future<long>> aw(f);
+            if (aw.subscribe(this)) return {};          // parked: the generator's next yield (or end) calls the handler
+            record();
+        }
+        return done();
+    }
+};
+
 // ---- a value type whose move empties the source, yielded as an lvalue the body keeps using; access styles mixed per item
 cocls::generator<std::string> accumulating(int n) { std::string acc; for (int i = 0; i < n; i++) { acc += (char)('a' + i); co_yield acc; } }
 void string_mode() {
@@ -154,10 +172,11 @@ void dsim_scenario() {
     if (dsim::choose(7) == 6) { string_mode(); return; }
     Script sc; S = &sc;
     sc.n = 1 + dsim::choose(8);
-    int mode = dsim::choose(4);               // 0 normal code, mixed styles; 1 range-for; 2 coroutine consumer; 3 generator with argument (normal code)
+    int mode = dsim::choose(5);               // 0 normal code, mixed styles; 1 range-for; 2 coroutine consumer; 3 generator with argument (normal code); 4 event-driven (callback awaiter)
     bool coroutine_consumer = mode == 2;
     int style[12]; for (int i = 0; i < 12; i++) style[i] = dsim::choose(4);
     bool all_nonblocking = true; for (int i = 0; i < 12; i++) if (style[i] == 0) all_nonblocking = false;
+    if (mode == 4) all_nonblocking = true;
     long v = 1;
     for (int k = 0; k < sc.n; k++) {
         int kd = dsim::choose(8);
@@ -169,7 +188,8 @@ void dsim_scenario() {
         if (sc.kind[k] == AWAIT_SELF) { for (int j = k - 1; j >= 0 && sc.kind[j] != Y; j--) if (sc.kind[j] == AWAIT_OTHER) sc.kind[k] = AWAIT_OTHER; }
         // a coroutine consumer completes the awaited operation while it is itself running, so the generator only continues (from the ready
         // queue) once the consumer has suspended in co_await: a second consumer-completed await before the next yield could never be completed
-        if (sc.kind[k] == AWAIT_SELF && coroutine_consumer) { for (int j = k - 1; j >= 0 && sc.kind[j] != Y; j--) if (sc.kind[j] == AWAIT_SELF) sc.kind[k] = AWAIT_OTHER; }
+        // (the same holds for the event-driven consumer: its handler may run under a queue installed by whoever resumed the generator)
+        if (sc.kind[k] == AWAIT_SELF && (coroutine_consumer || mode == 4)) { for (int j = k - 1; j >= 0 && sc.kind[j] != Y; j--) if (sc.kind[j] == AWAIT_SELF) sc.kind[k] = AWAIT_OTHER; }
         sc.val[k] = sc.kind[k] == THROW ? 900 + k : v++;
     }
     Expect e = expectation();
@@ -201,6 +221,11 @@ void dsim_scenario() {
             if (limit >= e.vals.size()) limit = 1000;
             try { bool broke = false; for (long x : gen) { o.vals.push_back(x); if (o.vals.size() >= limit) { broke = true; break; } } if (!broke) o.ended = true; }
             catch (const vs::TestError &ex) { o.threw = true; o.code = ex.code; }
+        } else if (mode == 4) {
+            auto gen = body();
+            CbGenConsumer<decltype(gen)> c(gen, limit, o); cocls::future<void> fin; c.done = fin.get_promise();
+            c.pump().clear();
+            fin.wait();
         } else if (mode == 2) {
             auto gen = body();
             consume_coro(gen, style, limit, o).join();
